@@ -135,3 +135,59 @@ package obfs4
 //@   ensures [C02:ntor_ok] err == nil ==> !allzero(X25519(seq(hs.keypair.private), ELL2(seq(hs.serverRepresentative)))) && !allzero(X25519(seq(hs.keypair.private), seq(hs.serverIdentity)))
 //@   ensures [C02:auth_checked] err == nil ==> seq(hs.serverAuth) == ntorAuth(cat(X25519(seq(hs.keypair.private), ELL2(seq(hs.serverRepresentative))), X25519(seq(hs.keypair.private), seq(hs.serverIdentity))), seq(hs.serverIdentity), seq(hs.keypair.public), ELL2(seq(hs.serverRepresentative)), seq(hs.nodeID))
 //@   ensures [C02:seed_is_key_seed] err == nil ==> seq(seed) == ntorKeySeed(cat(X25519(seq(hs.keypair.private), ELL2(seq(hs.serverRepresentative))), X25519(seq(hs.keypair.private), seq(hs.serverIdentity))), seq(hs.serverIdentity), seq(hs.keypair.public), ELL2(seq(hs.serverRepresentative)), seq(hs.nodeID))
+
+//@ pred shsInv(hs) := hs != nil && hs.mac != nil && hs.mac.hsize == 32 && hs.mac.halg == 1 && kpOK(hs.keypair) && kpOK(hs.serverIdentity) && hs.nodeID != nil
+//@       && hs.mac.hkey == cat(seq(hs.serverIdentity.public), seq(hs.nodeID))
+//@       && (hs.clientRepresentative != nil ==> len(hs.clientMark) == 16 && seq(hs.clientMark) == sub(HASH(1, hs.mac.hkey, seq(hs.clientRepresentative)), 0, 16))
+
+//@ pred hsApart(hs, filter) := outside(hs.clientMark, filter) && outside(hs.clientRepresentative, filter) && outside(hs.epochHour, filter) && outside(hs.mac, filter)
+//@       && outside(hs.keypair, filter) && outside(hs.keypair.public, filter) && outside(hs.keypair.private, filter) && outside(hs.serverIdentity, filter) && outside(hs.serverIdentity.public, filter) && outside(hs.serverIdentity.private, filter) && outside(hs.nodeID, filter)
+//@ func (*serverHandshake).parseClientHandshake(hs, filter, resp) (seed, err)
+//@   serves C03 C04 C06 C10
+//@   requires shsInv(hs) && labelsOK() && filter != nil && whole(filter) && outside(resp, hs) && outside(resp, hs.mac) && outside(resp, filter) && hsApart(hs, filter)
+//@   modifies hs.clientRepresentative, hs.clientMark, hs.mac.absorbed, hs.epochHour, hs.serverAuth, filter.*, now
+//@   ghost rep0 := hs.clientRepresentative
+//@   ghost nt0 := filter.ntests
+//@   ghost now0 := now
+//@   ghost rlen := len(resp)
+//@   loop 1 invariant hsApart(hs, filter)
+//@   loop 1 invariant shsInv(hs) && labelsOK() && hs.clientRepresentative != nil && -1 <= rangeindex && rangeindex < 3 && now >= now0 && filter.ntests >= nt0
+//@   loop 1 invariant 109 <= pos && pos + 32 <= len(resp) && pos + 32 <= 8192 && (rep0 == nil ==> seq(hs.clientRepresentative) == sub(seq(resp), 0, 32) && fresh(hs.clientRepresentative)) && (rep0 != nil ==> hs.clientRepresentative == rep0)
+//@   loop 1 invariant sub(seq(resp), pos, pos + 16) == sub(HASH(1, hs.mac.hkey, seq(hs.clientRepresentative)), 0, 16)
+//@   loop 1 invariant forall(j, 0, 3, -1 <= aget(arr(&slicelit), j) && aget(arr(&slicelit), j) <= 1)
+//@   loop 1 invariant [C04:replay_rejected] filter.ntests > nt0 ==> !filter.lastseen
+//@   loop 1 invariant [C04:found_means_tested] macFound ==> filter.ntests > nt0 && filter.lasttested == sub(seq(resp), pos + 16, pos + 32)
+//@       && sub(seq(resp), pos + 16, pos + 32) == sub(HASH(1, hs.mac.hkey, cat(sub(seq(resp), 0, pos + 16), seq(hs.epochHour))), 0, 16)
+//@       && exists(h, (now0 / 1000000000) / 3600 - 1, (now / 1000000000) / 3600 + 2, seq(hs.epochHour) == fmtInt(h, 10))
+//@   ensures [C04:state] shsInv(hs) && hsApart(hs, filter)
+//@   ensures [C06:first_32_bytes_are_X] rep0 == nil && hs.clientRepresentative != nil ==> seq(hs.clientRepresentative) == sub(seq(resp), 0, 32) && fresh(hs.clientRepresentative)
+//@   ensures [C04:no_trailing] err == nil ==> 141 <= len(resp) && len(resp) <= 8192 && hs.clientRepresentative != nil && len(seed) == 32
+//@   ensures [C04:mark_checked] err == nil ==> sub(seq(resp), len(resp) - 32, len(resp) - 16) == sub(HASH(1, hs.mac.hkey, seq(hs.clientRepresentative)), 0, 16)
+//@   ensures [C04:mac_bound_to_hour] err == nil ==> sub(seq(resp), len(resp) - 16, len(resp)) == sub(HASH(1, hs.mac.hkey, cat(sub(seq(resp), 0, len(resp) - 16), seq(hs.epochHour))), 0, 16)
+//@   ensures [C04:hour_window] err == nil ==> exists(h, (now0 / 1000000000) / 3600 - 1, (now / 1000000000) / 3600 + 2, seq(hs.epochHour) == fmtInt(h, 10))
+//@   ensures [C04:test_and_set] err == nil ==> filter.ntests > nt0 && !filter.lastseen && filter.lasttested == sub(seq(resp), len(resp) - 16, len(resp))
+//@   ensures [C04:replay_rejected] filter.ntests > nt0 && filter.lastseen ==> err == ErrReplayedHandshake
+//@   ensures [C03:ntor_ok] err == nil ==> !allzero(X25519(seq(hs.keypair.private), ELL2(seq(hs.clientRepresentative)))) && !allzero(X25519(seq(hs.serverIdentity.private), ELL2(seq(hs.clientRepresentative))))
+//@   ensures [C06:server_seed_and_auth] err == nil ==> hs.serverAuth != nil
+//@       && seq(seed) == ntorKeySeed(cat(X25519(seq(hs.keypair.private), ELL2(seq(hs.clientRepresentative))), X25519(seq(hs.serverIdentity.private), ELL2(seq(hs.clientRepresentative)))), seq(hs.serverIdentity.public), ELL2(seq(hs.clientRepresentative)), seq(hs.keypair.public), seq(hs.nodeID))
+//@       && seq(hs.serverAuth) == ntorAuth(cat(X25519(seq(hs.keypair.private), ELL2(seq(hs.clientRepresentative))), X25519(seq(hs.serverIdentity.private), ELL2(seq(hs.clientRepresentative)))), seq(hs.serverIdentity.public), ELL2(seq(hs.clientRepresentative)), seq(hs.keypair.public), seq(hs.nodeID))
+
+//@ func (*serverHandshake).generateHandshake(hs) (blob, err)
+//@   serves C04 C06 C10
+//@   requires shsInv(hs) && hs.keypair.representative != nil && hs.serverAuth != nil && 0 <= hs.padLen && hs.padLen <= 8051
+//@   modifies hs.mac.absorbed
+//@   ghost hour := seq(hs.epochHour)
+//@   ensures [C06:server_hs_layout] err == nil ==> len(blob) == 96 + hs.padLen && sub(seq(blob), 0, 32) == seq(hs.keypair.representative) && sub(seq(blob), 32, 64) == seq(hs.serverAuth)
+//@       && sub(seq(blob), 64 + hs.padLen, 80 + hs.padLen) == sub(HASH(1, hs.mac.hkey, seq(hs.keypair.representative)), 0, 16)
+//@   ensures [C04:reply_bound_to_client_hour] err == nil ==> sub(seq(blob), 80 + hs.padLen, 96 + hs.padLen) == sub(HASH(1, hs.mac.hkey, cat(sub(seq(blob), 0, 80 + hs.padLen), hour)), 0, 16)
+//@   ensures shsInv(hs)
+
+//@ func (*clientHandshake).generateHandshake(hs) (blob, err)
+//@   serves C06 C10
+//@   requires chsInv(hs) && hs.keypair.representative != nil && 77 <= hs.padLen && hs.padLen <= 8128
+//@   modifies hs.mac.absorbed, hs.epochHour, now
+//@   ensures [C06:client_hs_layout] err == nil ==> len(blob) == 64 + hs.padLen && 141 <= len(blob) && len(blob) <= 8192 && sub(seq(blob), 0, 32) == seq(hs.keypair.representative)
+//@       && sub(seq(blob), 32 + hs.padLen, 48 + hs.padLen) == sub(HASH(1, hs.mac.hkey, seq(hs.keypair.representative)), 0, 16)
+//@       && sub(seq(blob), 48 + hs.padLen, 64 + hs.padLen) == sub(HASH(1, hs.mac.hkey, cat(sub(seq(blob), 0, 48 + hs.padLen), seq(hs.epochHour))), 0, 16)
+//@   ensures [C06:hour_is_decimal] err == nil ==> exists(h, (old(now) / 1000000000) / 3600, (now / 1000000000) / 3600 + 1, seq(hs.epochHour) == fmtInt(h, 10))
+//@   ensures chsInv(hs)
